@@ -3,7 +3,7 @@
    Models: Model/Strconv.v, Model/UrlQuery.v, Model/PlainCodec.v, Model/FormCodec.v (the
    repaired code of /repo; the [_prefix] definitions are the code as pinned), Model/LibCodecs.v. *)
 From Coq Require Import Strings.String Strings.Byte.
-From Coq Require Import List Arith NArith ZArith Bool Lia.
+From Coq Require Import List Arith NArith ZArith Bool Lia Permutation.
 From Verif Require Import Base.Bytes Model.Strconv Model.UrlQuery Model.PlainCodec Model.FormCodec
   Model.LibCodecs Proofs.StrconvProofs Proofs.UrlQueryProofs Proofs.PlainCodecProofs
   Proofs.FormCodecProofs Proofs.LibCodecsProofs.
@@ -36,6 +36,13 @@ Theorem C11_values_roundtrip : forall q,
                forall k, vget form k = nonempty_of (vget q k).
 Proof. exact values_roundtrip_lemma. Qed.
 Print Assumptions C11_values_roundtrip.
+
+(* A Go map has no order; the model fills an insertion-ordered list.  Encode sorts the keys, so
+   its output does not depend on that order (this is what makes the list a faithful stand-in). *)
+Theorem C11_encode_order_independent : forall q q',
+  Permutation q q' -> NoDup (map fst q) -> values_encode q = values_encode q'.
+Proof. exact values_encode_order_independent. Qed.
+Print Assumptions C11_encode_order_independent.
 
 (* ---- plain codec ---- *)
 
